@@ -27,12 +27,21 @@
                         with at least parse_fuel on both sides both inputs are accepted with the same tree or both
                         rejected.  (The first formulation, same fuel on both sides with matching out-of-fuel
                         outcomes, is REFUTED below: C14_nl_in_brackets_statement_level_same_fuel_refuted.)
-   What is NOT proved and stays a visible Prop (never assumed): C14_ws_insert_whole_input.  *)
+     C14_ws_insert_whole_input (Lex/WsInsert.v) the LEXER, whole input: a non-empty run of spaces / tabs / carriage returns
+                        inserted at a token boundary of the source text (the text before it is the concatenation of
+                        the first tokens) leaves the sequence of kinds and payloads of the non-comment tokens unchanged.
+                        Proved for the regenerated token table: after at least one character the live patterns are all
+                        white-space free (a white-space character kills them), or the set after one `/`, or exactly
+                        the inside of a string / of a comment / of a white-space run (a white-space character leaves
+                        the set as it is); the table-specific facts are checked by computation below.
+   Nothing of this file is left as an unproved Prop except the refuted first formulation
+   C14_nl_in_brackets_statement_level (kept visible next to its refutation).  *)
 From Coq Require Import String List NArith Bool Arith.
 From Sylt Require Import Lex.Regex Lex.Logos Lex.LayoutProofs Gen.GenTokens
   Syntax.Ast Syntax.Tok Parse.PrecTable Parse.Parser Parse.ParserProofs Parse.OpTree Parse.ExprRoundTrip
   Parse.Sugar Parse.Layout Parse.LayoutSim Parse.ParserTotal Parse.PreSim Parse.LayoutStmt Gen.GenPrec.
 From Sylt Require Parse.SimGen Parse.CommentSim.
+From Sylt Require Lex.WsInsert.
 From Sylt Require Import Syntax.SugarNF Parse.StmtRoundTrip Parse.SugarNFProofs.
 Import ListNotations.
 
@@ -305,9 +314,37 @@ Proof.
   rewrite E, E' in G. apply snf_program_of_noempty. exact G.
 Qed.
 
-(* ---- stated, not proved ---- *)
+(* ---- stated, refuted above, kept visible ---- *)
 Definition C14_nl_in_brackets_statement_level : Prop := nl_in_brackets_statement_level gen_ptab.   (* refuted above *)
-Definition C14_ws_insert_whole_input : Prop := ws_insert_statement gen_table.
+
+(* ---- the lexer, whole input: white space inserted at a token boundary ---- *)
+(* the three patterns that are not white-space free, and the others before / between them *)
+Definition C14_dpat : pat := mkPat "" (XLit []) 0 CbUnit.
+Definition C14_pString : pat := nth 6 gen_table C14_dpat.
+Definition C14_pComment : pat := nth 72 gen_table C14_dpat.
+Definition C14_pWhitespace : pat := nth 73 gen_table C14_dpat.
+Definition C14_before_string : live := firstn 6 (start_live gen_table).
+Definition C14_after_string : live := firstn 65 (skipn 7 (start_live gen_table)).
+
+Theorem C14_ws_insert_whole_input : ws_insert_statement gen_table.
+Proof.
+  apply (Lex.WsInsert.ws_insert gen_table C14_pString C14_pComment C14_pWhitespace C14_before_string C14_after_string).
+  - vm_compute. reflexivity.
+  - vm_compute. reflexivity.
+  - vm_compute. reflexivity.
+  - split; vm_compute; reflexivity.
+  - vm_compute. reflexivity.
+  - reflexivity.
+  - split; reflexivity.
+Qed.
+Print Assumptions C14_ws_insert_whole_input.
+
+(* spelled out *)
+Theorem C14_ws_insert_spelled : forall s1 s2 ws rs1, ws <> [] -> forallb is_ws_char ws = true ->
+  concat (map r_text rs1) = s1 ->
+  raw_lex (length (s1 ++ s2)) gen_table (s1 ++ s2) = rs1 ++ raw_lex (length s2) gen_table s2 ->
+  kinds (lex gen_table (s1 ++ ws ++ s2)) = kinds (lex gen_table (s1 ++ s2)).
+Proof. intros s1 s2 ws rs1 Hne Hws Hc H. apply C14_ws_insert_whole_input; [exact Hne|exact Hws|exists rs1; split; assumption]. Qed.
 
 (* ---- non-vacuity ---- *)
 Definition nm (s : string) : name := ascii_name s.
@@ -798,3 +835,42 @@ Print Assumptions C14_empty_statements_same_lua.
 Print Assumptions C14_parens_and_empties_same_lua.
 Print Assumptions C14_layout_resolve.
 Print Assumptions C14_layout_same_lua.
+
+(* ---- arrow calls (Resolve/Arrow.v, ArrowProofs.v) ----
+   dearrow rewrites every `x -> f(args)` (AArrowCall x f args) to `f(x, args)` (ACall f (x :: args)).
+   C14_resolve_arrow  with the three restore flags on (the code as it is: C09_flags), on a well-formed AST whose arrow
+                      calls have simple callees (a name or an access chain after `->`): name resolution accepts the
+                      program with result r if and only if it accepts the de-sugared program with the same r.
+                      Proved for the scope-list specification and transported by C09_resolve_refines_nsfirst.
+   C14_arrow_same_lua an accepted program and its de-sugared form have the same pipeline result (every later verdict,
+                      every byte).
+   Error case, precisely: the receiver of an arrow call is resolved BEFORE the callee, the first argument of the plain
+   call AFTER it.  A rejected program stays rejected (C14_resolve_arrow, contrapositive); when both the receiver and
+   the callee fail to resolve, the FIRST error -- the only one the model, like the tie, records -- is the receiver's in
+   `zz -> yy(4)` and the callee's in `yy(zz, 4)` (checked on the real compiler).  A callee that is a compound expression
+   with function literals inside would number their variables differently in the two forms: excluded by
+   arrows_simple.  Prime calls `f' a, b` need no theorem here: the parser builds the Call node (C14_prime_call). *)
+From Sylt Require Resolve.Wf Resolve.Arrow Resolve.ArrowProofs Resolve.RefineProofs Gen.GenResolve.
+
+Theorem C14_resolve_arrow : forall fl ast r,
+  Sylt.Resolve.RefineProofs.restores fl = true -> Sylt.Resolve.Wf.wf_ast ast = true ->
+  Sylt.Resolve.Arrow.arrows_simple ast = true ->
+  (Sylt.Resolve.Resolver.resolve fl ast = Sylt.Resolve.Resolver.Ok r
+   <-> Sylt.Resolve.Resolver.resolve fl (Sylt.Resolve.Arrow.dearrow ast) = Sylt.Resolve.Resolver.Ok r).
+Proof. exact Sylt.Resolve.ArrowProofs.resolve_arrow. Qed.
+
+Theorem C14_arrow_same_lua : forall fl tgt fuel_tc fuel req ast r,
+  Sylt.Resolve.RefineProofs.restores fl = true -> Sylt.Resolve.Wf.wf_ast ast = true ->
+  Sylt.Resolve.Arrow.arrows_simple ast = true ->
+  Sylt.Resolve.Resolver.resolve fl ast = Sylt.Resolve.Resolver.Ok r ->
+  Sylt.Resolve.ParensLua.pipeline fl tgt fuel_tc fuel req (Sylt.Resolve.Arrow.dearrow ast)
+  = Sylt.Resolve.ParensLua.pipeline fl tgt fuel_tc fuel req ast.
+Proof. exact Sylt.Resolve.ParensLua.arrow_same_lua. Qed.
+
+(* the hypothesis on the flags holds of the code of this run *)
+Theorem C14_arrow_flags : Sylt.Resolve.RefineProofs.restores Sylt.Gen.GenResolve.gen_rflags = true.
+Proof. vm_compute. reflexivity. Qed.
+
+Print Assumptions C14_resolve_arrow.
+Print Assumptions C14_arrow_same_lua.
+Print Assumptions C14_arrow_flags.
